@@ -197,6 +197,7 @@ func (k c05) Run(c *rt.Ctx) {
 	}
 	st := gen.NewStore(r, c05Families[r.Intn(len(c05Families))])
 	g := fullGenFor(c, st, r)
+	g.RawListHead = true
 	g.RefBias = r.Range(2, 4)
 	// constructs that can fail at run time depending on the data (dynamically
 	// typed JSON members, unequal vector lengths) are not generated: with them
